@@ -231,7 +231,7 @@ model's trees, stand for exactly the cycles of the model's collection, and be so
 of `C02.c02_fvs_trees_end_to_end` / `c02_iso_trees_end_to_end` — and then the literal main loop must emit EXACTLY the
 cycles the C++ emitted, phase by phase, and the same total. -/
 def replayTrees (id : String) (gI : Graph) (var : String) (dim : Nat) (rest : List (List String))
-    (cycI : List (List Nat)) (ret : Int) : Option String := Id.run do
+    (cycI : List (List Nat)) (ret : Option Int) : Option String := Id.run do
   let scs : List (Nat × Nat × Nat × Int) := (rest.filter (fun l => l.head? == some "sc")).filterMap fun l =>
     match l.tail with
     | [t, s, e, w] => do some ((← t.toNat?), (← s.toNat?), (← e.toNat?), (← w.toInt?))
@@ -261,15 +261,15 @@ def replayTrees (id : String) (gI : Graph) (var : String) (dim : Nat) (rest : Li
     if a != b then return some s!"diff {id} literal-trees-loop phase {k} model=[{showNats a}] impl=[{showNats b}]"
     k := k + 1
   if r.cycles.length != cycI.length then return some s!"diff {id} literal-trees-loop phases model={r.cycles.length} impl={cycI.length}"
-  if r.weight != ret then return some s!"diff {id} literal-trees-loop weight model={r.weight} impl={ret}"
+  if ret.isSome && some r.weight != ret then return some s!"diff {id} literal-trees-loop weight model={r.weight} impl={ret}"
   return none
 
 /-- **literal replay of `mcb_sva_signed`** (`Model/HeapAlgo.lean`: every search on two literal 4-ary heaps) on the graph in
 ForestIndex coordinates.  The only input besides the graph is, per phase of the hidden-edge branch, the iteration order of
 the `std::set` of signed edges, read off the first reported search of that phase (its hidden set is the whole set, in set
 order).  The model must emit EXACTLY the cycles the C++ emitted, phase by phase, and the same total. -/
-def replaySigned (id : String) (gI : Graph) (rev : List Nat) (dim : Nat) (evs : List SearchEv) (cycI : List (List Nat)) (ret : Int) :
-    Option String := Id.run do
+def replaySigned (id : String) (gI : Graph) (rev : List Nat) (dim : Nat) (evs : List SearchEv) (cycI : List (List Nat))
+    (ret : Option Int) : Option String := Id.run do
   let sigma := fun (k : Nat) (S : List Nat) =>
     match evs.find? (fun e => e.phase == k && e.hiddenBranch) with
     | some e => e.hidden
@@ -280,7 +280,7 @@ def replaySigned (id : String) (gI : Graph) (rev : List Nat) (dim : Nat) (evs : 
     if a != b then return some s!"diff {id} literal-signed-loop phase {k} model=[{showNats a}] impl=[{showNats b}]"
     k := k + 1
   if r.cycles.length != cycI.length then return some s!"diff {id} literal-signed-loop phases model={r.cycles.length} impl={cycI.length}"
-  if r.weight != ret then return some s!"diff {id} literal-signed-loop weight model={r.weight} impl={ret}"
+  if ret.isSome && some r.weight != ret then return some s!"diff {id} literal-signed-loop weight model={r.weight} impl={ret}"
   return none
 
 /-- C01/C02: the implementation's cycles are replayed through the literal support bookkeeping -/
@@ -316,11 +316,11 @@ def handleExact (c : Case) : String := Id.run do
           | none => pure ()
         let mut lit := 0
         if (var == "fvs" || var == "iso") && (findLine "nsc" rest).isSome then
-          match replayTrees c.id gI var dim rest cycI ret with
+          match replayTrees c.id gI var dim rest cycI (some ret) with
           | some d => return d
           | none => lit := 1
         if var == "signed" && (!evs.isEmpty || dim == 0) then
-          match replaySigned c.id gI rev dim evs cycI ret with
+          match replaySigned c.id gI rev dim evs cycI (some ret) with
           | some d => return d
           | none => lit := 1
         return s!"ok {c.id} {g.n} {g.m} {dim} {total} {bA} {bH} {if brute then 1 else 0} {evs.length} {lit}"
@@ -400,6 +400,26 @@ def handleApprox (c : Case) : String := Id.run do
       match validateRun c.id gI v fi.dim cycI sup0 with
       | .error e => return e
       | .ok (t, _, _, _) => total := t
+      -- literal replay of the exact phase on the spanner (sequential variants): `Model/HeapAlgo.lean` / `Model/TreesAlgo.lean`
+      -- on the spanner graph in its own ForestIndex coordinates must emit EXACTLY the spanner cycles the C++ emitted
+      let mut litExact := 0
+      if var == "signed" && sup0 == unitSupports fi.dim then
+        let evs := parseSearchEvs rest
+        if !evs.isEmpty || fi.dim == 0 then
+          match replaySigned c.id gI fi.reverse fi.dim evs cycI none with
+          | some d => return d
+          | none => litExact := 1
+      if (var == "fvs" || var == "iso") && (findLine "nsc" rest).isSome then
+        -- the sequential approx_mcb_sva_iso_trees instantiates the FVS-tree exact algorithm (parmcb_approx_sva_trees.hpp:49;
+        -- the model `approxIsoTrees` follows the code); a run over the isometric collection is accepted as well
+        match replayTrees c.id gI "fvs" fi.dim rest cycI none with
+        | none => litExact := 1
+        | some d =>
+          if var == "iso" then
+            match replayTrees c.id gI "iso" fi.dim rest cycI none with
+            | none => litExact := 1
+            | some _ => return d
+          else return d
       -- one cycle per dropped edge (any order: the TBB variant appends concurrently)
       let mut remaining := D
       for cyc in extra do
@@ -422,7 +442,7 @@ def handleApprox (c : Case) : String := Id.run do
           if lit != cyc then return s!"diff {c.id} literal-dijkstra-path edge={e} model=[{showNats lit}] impl=[{showNats cyc}]"
       if !remaining.isEmpty then return s!"viol {c.id} dropped-edges-without-cycle [{showNats remaining}]"
       if total != ret then return s!"viol {c.id} ret returned={ret} emitted-weight={total}"
-      return s!"ok {c.id} {g.n} {g.m} {k} {fi.dim} {D.length} {total} {D.length} 0"
+      return s!"ok {c.id} {g.n} {g.m} {k} {fi.dim} {D.length} {total} {D.length} {litExact}"
     | _, _, _, _, _, _, _, _ => return s!"diff {c.id} parse-approx-lines"
 
 def showOptNats (l : List (Option Nat)) : String :=
